@@ -23,9 +23,15 @@ class IntrinsicTable:
                 self.exact[n] = f
             return f
         return deco
-    def rx(self, pattern):
+    def rx(self, pattern, prio=None):
+        """Register a regex contract.  Generic `<.* as Trait>` patterns get a lower priority so that
+        specific contracts registered later still win."""
+        if prio is None:
+            prio = -1 if pattern.startswith('^<.* as') else 0
         def deco(f):
-            self.patterns.append((re.compile(pattern), f))
+            self.patterns.append((prio, len(self.patterns), re.compile(pattern), f))
+            self.patterns.sort(key=lambda x: (-x[0], x[1]))
+            self._cache.clear()
             return f
         return deco
     def lookup(self, name):
@@ -34,7 +40,7 @@ class IntrinsicTable:
             return f
         if name in self._cache:
             return self._cache[name]
-        for rx, f in self.patterns:
+        for _p, _n, rx, f in self.patterns:
             if rx.search(name):
                 self._cache[name] = f
                 return f
